@@ -126,7 +126,7 @@ func StrN(t *rapid.T, label string, n int, o Opts) string {
 		return ""
 	}
 	kind := rapid.IntRange(0, 9).Draw(t, label+".charset")
-	if sub := rapid.IntRange(0, 19).Draw(t, label+".oddcharset"); sub == 0 {
+	if sub := rapid.IntRange(0, 13).Draw(t, label+".oddcharset"); sub == 0 {
 		// whitespace only (valid UTF-8, but empty once trimmed or split)
 		return string(fillTo([]byte(rapid.SampledFrom([]string{" ", "\t", "  ", " \t", "\n"}).Draw(t, label+".ws")), n))
 	} else if sub == 1 && !o.SpecValid {
